@@ -91,4 +91,74 @@ theorem fOp_args (op : FOp) (x y v : FVal) (h : fOp op x y = .ok v) : x ≠ .non
     · intro hh; subst hh; simp [fNode, typeError] at h
     · intro hh; subst hh; cases x <;> simp [fNode, typeError] at h
 
+/-- the node is `Sum - x` or `float // non-fixed` -/
+def nodeBad (env : FEnv) (op : FOp) (a b : FExpr) : Bool :=
+  match elabF env a, elabF env b with
+  | .ok x, .ok y => fSumMinusNode op x y || rfdNode op x y
+  | _, _ => false
+
+/-- surface side conditions (decidable): decimal literals `n / 10^5` with `|n| < 2^51`; no `Sum - x` node (class
+*sum-minus*), no `float // non-fixed expression` node -/
+def FExpr.ok (env : FEnv) : FExpr → Bool
+  | .dec n => decide (n.natAbs < 2 ^ 51)
+  | .bin op a b => a.ok env && b.ok env && !nodeBad env op a b
+  | _ => true
+
+theorem isSumObj_varExpr (l : VarLoc) : isSumObj (varExpr l) = false := rfl
+
+/-- **fx_typing** (the typing theorem, over ℤ/ℚ, all signs): walking a surface expression with the real operator
+protocol yields a value whose `fixed` attribute is the static type of the expression, and whose integer semantics
+(`evalZ`, C01) is the exact rational value `semQ` — scaled by `FIXED_BASE` exactly when the type is fixed.  The
+elaboration therefore inserts exactly the scale factors needed, one per mixed node, `FIXED_BASE²` for int / fixed. -/
+theorem elabF_rep (env : FEnv) (σ : State) : ∀ (s : FExpr) (v : FVal), s.ok env = true → elabF env s = .ok v →
+    v ≠ .none → RepV σ v (s.semQ env σ) (s.isFixed env) := by
+  intro s
+  induction s with
+  | int c => intro v _ h _; simp only [elabF, pure, Except.pure, Except.ok.injEq] at h; subst h; exact ⟨rfl, rfl⟩
+  | dec n =>
+    intro v hok h _
+    simp only [elabF, pure, Except.pure, Except.ok.injEq] at h; subst h
+    exact ⟨rfl, rfl, by simpa [FExpr.ok] using hok⟩
+  | reg view no =>
+    intro v _ h _
+    simp only [elabF, pure, Except.pure, Except.ok.injEq] at h; subst h
+    refine ⟨rfl, ?_, fun hh => by cases hh⟩
+    simp only [Rep, scale, evalZ, FExpr.semQ, Bool.false_eq_true, if_false]; grind
+  | xreg no =>
+    intro v _ h _
+    simp only [elabF, pure, Except.pure, Except.ok.injEq] at h; subst h
+    refine ⟨rfl, ?_, fun _ => rfl⟩
+    simp only [Rep, scale, evalZ, viewZ, FExpr.semQ, if_true, SQ_eq]; grind
+  | var name =>
+    intro v _ h _
+    simp only [elabF] at h
+    cases hl : lookupVar env.locs name with
+    | none => rw [hl] at h; cases h
+    | some l =>
+      rw [hl] at h
+      simp only [pure, Except.pure, Except.ok.injEq] at h; subst h
+      refine ⟨rfl, ?_, fun _ => isSumObj_varExpr l⟩
+      have hz : evalZ σ (varExpr l) = fmtZ l.fmt (loadN σ.mem (σ.regs l.base + BitVec.ofInt 64 l.off) l.fmt.size) := by
+        simp [varExpr, evalZ, Expr.asSum]
+      simp only [Rep, scale, FExpr.semQ, hl, hz]
+      cases env.fx.contains name <;> simp only [Bool.false_eq_true, if_false, if_true, SQ_eq] <;> grind
+  | bin op a b iha ihb =>
+    intro v hok h hn
+    simp only [FExpr.ok, Bool.and_eq_true, Bool.not_eq_true'] at hok
+    simp only [elabF, bind, Except.bind] at h
+    cases hx : elabF env a with
+    | error e => rw [hx] at h; cases h
+    | ok x =>
+      rw [hx] at h
+      simp only [] at h
+      cases hy : elabF env b with
+      | error e => rw [hy] at h; cases h
+      | ok y =>
+        rw [hy] at h
+        simp only [] at h
+        obtain ⟨hxn, hyn⟩ := fOp_args op x y v h
+        have hb := hok.2
+        simp only [nodeBad, hx, hy, Bool.or_eq_false_iff] at hb
+        exact fOp_rep op x y v _ _ _ _ (iha x hok.1.1 hx hxn) (ihb y hok.1.2 hy hyn) h hn hb.1 hb.2
+
 end Ebv.GenFixed
